@@ -644,7 +644,7 @@ def _py_percentile(q):
 
 def _uf_or_py(name, c, pyf):
     if symx.has_sym(c):
-        return symx.uf_real(name, c, pyf)
+        return symx.uf_real(name, c, pyf, symmetric=True)
     return pyf([float(x) for x in c])
 
 
